@@ -37,6 +37,13 @@ class SimFile:
       self._reads += 1
       self.vfs.fired('read_raises')
       raise OSError(errno.EIO, 'simulated I/O error', self.name)
+    k = self._plan.get('read_enoent')
+    if k is not None and self._reads == k:
+      # (e.g. a network file system losing the file under the reader)
+      self._reads += 1
+      self.vfs.fired('read_enoent')
+      raise FileNotFoundError(errno.ENOENT, 'simulated: file vanished',
+                              self.name)
     k = self._plan.get('read_interrupts')
     if k is not None and self._reads == k:
       self._reads += 1
